@@ -23,6 +23,7 @@ import (
 func init() {
 	zzverif.Register("VerifC12Seq", VerifC12Seq)
 	zzverif.Register("VerifC12Seq1", VerifC12Seq1)
+	zzverif.Register("VerifC12Payload", VerifC12Payload)
 	zzverif.Register("VerifC12SeqWide", VerifC12SeqWide)
 	zzverif.Register("VerifC12SeqLong", VerifC12SeqLong)
 	zzverif.Register("VerifC12SeqOrder", VerifC12SeqOrder)
@@ -386,4 +387,44 @@ func c12SkeletonContent(f, v int, nm string) string {
 func VerifC12SeqOrder() {
 	m := c12Model{versions: [3]int{len(c12SkeletonIncludes[0]), len(c12SkeletonIncludes[1]), len(c12SkeletonIncludes[2])}, content: c12SkeletonContent}
 	verifC12Seq(m, 2, true)
+}
+
+// ---- edits that change a declaration's payload but not its name ----
+
+// VerifC12Payload: root declares a commodity format, an account and includes a.journal; the
+// caches of the derived views are warm (every getter has been called); then ONE file is
+// updated so that only the payload of a declaration changes (the format of the same
+// commodity, the sub-directive of the same account) or a declaration is added / removed,
+// with the include list unchanged. The views must equal a fresh workspace's.
+func VerifC12Payload() {
+	fmts := []string{"1.000,00 EUR", "1,000.00 EUR", "1000.0000 EUR", "1 000,0 EUR"}
+	root := func(f int, acct bool) string {
+		s := "include a.journal\ncommodity " + fmts[f] + "\n"
+		if acct {
+			s += "account ast:cash\n"
+		}
+		return s + "\n" + c12Tx(1, "15")
+	}
+	f0 := zzverif.Choice("fmt0", len(fmts))
+	a0 := zzverif.Choice("acct0", 2) == 1
+	zzverif.WriteFile(c12Path(c12Root), root(f0, a0))
+	zzverif.WriteFile(c12Path(c12A), "commodity 1,000.000 USD\n\n"+c12Tx(0, "15"))
+	zzverif.WriteFile(c12Path(c12B), c12Tx(2, "15"))
+	w := NewWorkspace(zzverif.Root(), include.NewLoader())
+	zzverif.Assert(w.Initialize() == nil, "Initialize fails")
+	dropped := map[string]bool{}
+	c12CompareWorkspaces(w, c12Fresh(), dropped) // warms every cache
+	f1 := zzverif.Choice("fmt1", len(fmts))
+	a1 := zzverif.Choice("acct1", 2) == 1
+	var path, content string
+	if zzverif.Choice("file", 2) == 0 {
+		path, content = c12Path(c12Root), root(f1, a1)
+	} else {
+		path, content = c12Path(c12A), "commodity "+[]string{"1,000.000 USD", "1.000,0 USD"}[zzverif.Choice("fmtA", 2)]+"\n\n"+c12Tx(0, "15")
+	}
+	zzverif.WriteFile(path, content)
+	w.UpdateFile(path, content)
+	c12CompareWorkspaces(w, c12Fresh(), dropped)
+	zzverif.Observe("formats", hxRenderFormats(w.GetCommodityFormats()))
+	zzverif.Reach("C12.payload.end")
 }
